@@ -536,4 +536,58 @@ def ru_names_bound(ctx: Ctx) -> None:
     names_rule(ctx)
 
 
-RULES = [r1_handler_census, r2_entry_point_status, r3_error_values_consumed, r4_success_last, r5_escape_obligations, r6_whole_input_is_parsed, r7_unmapped_address_rejected, r8_recovery_scope, rb_binding_agreement, rm_no_process_lifetime_results, ru_names_bound]
+def r9_dispatch_errors_name_the_dispatched_token(ctx: Ctx) -> None:
+    """a syntax error raised about the token a parser state dispatched on carries that token, never a fresh p.current()/p.peek(): past the
+    end of input those return a position-less token whose trace() is None, and MZParser.parse_as_ast returns that None as `no error` (C17.R6)"""
+    from .c17 import r6_dispatch_errors_name_the_dispatched_token
+
+    r6_dispatch_errors_name_the_dispatched_token(ctx)
+
+
+def operand_brackets_closed(ctx: Ctx) -> None:
+    fi = ctx.repo.func("a816.parse.parser_states", "parse_operand_and_addressing")
+    from ..match import if_chain
+
+    chains = [st for st in fi.node.body if isinstance(st, ast.If)]
+    if len(chains) != 1:
+        raise AnalysisError(f"{fi.where}: expected one if-chain over the first operand token")
+    arms, _els = if_chain(chains[0])
+    seen = 0
+    for test, body in arms:
+        if not (isinstance(test, ast.Call) and call_name(test) == "accept_token" and len(test.args) == 2):
+            continue
+        opener = (dotted(test.args[1]) or "").split(".")[-1]
+        closer = {"LPAREN": "RPAREN", "LBRAKET": "RBRAKET"}.get(opener)
+        if closer is None:
+            continue
+        seen += 1
+        ctx.count("bracket_arms")
+        seq = body
+        if len(seq) >= 1 and isinstance(seq[-1], ast.Try) and all(not isinstance(x, (ast.If, ast.Try, ast.For, ast.While)) for x in seq[:-1]):
+            seq = seq[-1].body  # the `(` arm tries the indirect form first; its fallback re-parses the whole text as an expression
+        def closes(st: ast.stmt) -> bool:
+            return (isinstance(st, ast.Expr) and isinstance(st.value, ast.Call) and call_name(st.value) == "expect_token" and len(st.value.args) == 2
+                    and (dotted(st.value.args[1]) or "").split(".")[-1] == closer)
+        top = [k for k, st in enumerate(seq) if closes(st)]
+        anywhere = [c for st in body for c in calls_in(st) if call_name(c) in ("expect_token", "expect_tokens") and closer in unparse(c)]
+        if not anywhere:
+            ctx.fail(f"{fi.name}:{opener}-arm:closed", f"an operand opened with {opener} is accepted without requiring {closer}: the unclosed operand "
+                     "assembles and the token after it is swallowed", fact=True)
+            continue
+        if not top:
+            raise AnalysisError(f"{fi.where}: {closer} is required only inside a nested statement of the {opener} arm; layout not modelled")
+        early = [n for st in seq[:top[0]] for n in ast.walk(st) if isinstance(n, (ast.Return, ast.Break, ast.Continue))]
+        if early:
+            raise AnalysisError(f"{fi.where}: the {opener} arm can leave before {closer} is required; layout not modelled")
+        ctx.ok(f"{fi.name}:{opener}-arm:closed", f"every completion of the arm passes expect_token(.., {closer})")
+    if seen != 2:
+        raise AnalysisError(f"{fi.where}: expected an arm for `(` and one for `[`, found {seen}")
+
+
+def r10_operand_brackets_closed(ctx: Ctx) -> None:
+    """an operand that opens with `(` or `[` is accepted only when the matching closer follows: every completion of that arm of
+    parse_operand_and_addressing passes through expect_token(.., RPAREN / RBRAKET)"""
+    operand_brackets_closed(ctx)
+
+
+RULES = [r1_handler_census, r2_entry_point_status, r3_error_values_consumed, r4_success_last, r5_escape_obligations, r6_whole_input_is_parsed, r7_unmapped_address_rejected, r8_recovery_scope, r9_dispatch_errors_name_the_dispatched_token, r10_operand_brackets_closed, rb_binding_agreement, rm_no_process_lifetime_results, ru_names_bound]
